@@ -1039,7 +1039,7 @@ Proof.
     pose proof (heap_app_length h h1 (eval_aval_app vs h (ANew c) h1 v E1)) as Hle.
     destruct Hin as [Hv|Hin].
     + subst v. simpl in E1. destruct (wf_cellb c); inversion E1; subst. lia.
-    + pose proof (IH h1 h2 vs' Hrest E2 id Hin). lia.
+    + pose proof (IH _ _ _ Hrest E2 id Hin). lia.
 Qed.
 
 (* from_data with arrays of its own shares nothing with the vectors that existed before *)
@@ -1165,7 +1165,7 @@ Proof.
   pose proof (resolve_take_range _ _ _ Er) as Hr.
   exists raw, idxs. eexists. unfold push_vec. cbn [vecs heap vshape vfields vunits vdata].
   repeat split; auto.
-  intros o Ho. rewrite (@tget_take idxs (vshape v) (vdata v) o Hsh Hr Ho).
+  intros o Ho. cbn [vdata]. rewrite (@tget_take idxs (vshape v) (vdata v) o Hsh Hr Ho).
   destruct (tget_total (src_of idxs o) (vshape v) (vdata v) Hsh (src_of_range idxs (vshape v) o Hr Ho)) as [lf Hlf].
   exists lf. auto.
 Qed.
